@@ -76,7 +76,7 @@ Theorem C08_loop_flag_needed : forall fuel,
 Proof. intros fuel. apply names_unguarded_diverges. auto. Qed.
 Print Assumptions C08_loop_flag_needed.
 
-(* Open findings F48 / F49: termination is proved, a constant stack bound is NOT true: for every
+(* Open findings F48 / F50: termination is proved, a constant stack bound is NOT true: for every
    limit L there is a well-levelled flow graph (L+1 sequential flows) whose resolution needs more
    than L nested calls.  On CPython (limit 1000, ~14 frames per sequential `if`) this is a
    RecursionError after ~85 sequential if statements; see corpus/C08/known_F48.json. *)
